@@ -99,6 +99,11 @@ def body(chk):
     for rpc in (1, 3, 1024):
         cases.append(dict(level="1.5", images=[("HH", None, 6, 3), ("HV", None, 6, 3), ("VV", "F1", 4, 2)], rpc=rpc,
                           seed=chk.seed + 900 + rpc, fss=["vtrace"], sels=[("all",), ("slice", 1, 5, 2)], origin="multi", special=False))
+    # ScanSAR: one image per scan, every scan with its own number of lines (fewer AND more than the request size, in any order): the
+    # request size of one image is not what an earlier image of the product was clipped to
+    for j, rpc in enumerate((4, 8, 1024)):
+        cases.append(dict(level="1.1", images=[("HH", "F1", 3, 2), ("HH", "F2", 9, 2), ("HH", "F3", 5, 2), ("HH", "F4", 14, 2)], rpc=rpc,
+                          seed=chk.seed + 940 + j, fss=["vtrace"], sels=[("all",), ("slice", 0, 8, 1), ("slice", 1, 5, 2)], origin="scansar-geometries", special=False))
     cases.append(dict(level="1.1", images=[("HH", "F1", 5, 2), ("HH", "F2", 5, 2)], rpc=None, seed=chk.seed + 950, fss=["vtrace"],
                       sels=[("all",)], origin="default-options", special=False))
     # pointwise (vectorised) selections: several points on lines of the SAME group are still one request for that group; and trees
